@@ -5,6 +5,7 @@ package main
 import (
 	"context"
 	"encoding/json"
+	"errors"
 	"fmt"
 	"io"
 	"log/slog"
@@ -31,6 +32,7 @@ type rw struct {
 	buf      strings.Builder // what the browser has received: written AND flushed
 	pending  strings.Builder // written, still in the server's buffer
 	stall    bool            // block while writing a reload event until released
+	broken   bool            // writing a reload event fails
 	released *bool
 }
 
@@ -45,6 +47,10 @@ func (w *rw) Write(p []byte) (int, error) {
 	if w.stall && strings.Contains(string(p), "reload") {
 		vsched.WaitUntil("stalled-reader", func() bool { return *w.released })
 	}
+	if w.broken && strings.Contains(string(p), "reload") {
+		// the connection is gone (reset by the peer) although the request's context has not been cancelled yet
+		return 0, errors.New("write: broken pipe")
+	}
 	w.pending.Write(p)
 	return len(p), nil
 }
@@ -57,6 +63,7 @@ type scenario struct {
 	sends      int  // broadcasts back to back
 	cancel     int  // clients 0..cancel-1 are cancelled concurrently with the broadcast
 	stalled    bool // client `cancel` (first staying one) never reads its reload until phase C
+	broken     bool // the connection of client `cancel` breaks when its reload event is written (a write error, no cancellation)
 	late       bool // one more client connects concurrently with the broadcast
 	churn      bool // before the broadcast: client0 disconnects, then a new client connects (sequentially)
 	extraPing  int
@@ -141,6 +148,9 @@ func (sc scenario) build() (func(), func(*vsched.Exec) string, func() string) {
 		if sc.stalled {
 			ws[sc.cancel].stall = true
 		}
+		if sc.broken {
+			ws[sc.cancel].broken = true
+		}
 		// phase A: run to quiescence; every client has registered and written its first ping
 		vsched.Quiesce("phaseA")
 		for i := 0; i < n; i++ {
@@ -209,7 +219,7 @@ func (sc scenario) build() (func(), func(*vsched.Exec) string, func() string) {
 			}
 		}
 		for i := sc.cancel; i < n; i++ {
-			if sc.stalled && i == sc.cancel {
+			if (sc.stalled || sc.broken) && i == sc.cancel {
 				continue
 			}
 			if sc.churn && i == 0 {
@@ -224,7 +234,7 @@ func (sc scenario) build() (func(), func(*vsched.Exec) string, func() string) {
 			return
 		}
 		for i, w := range ws {
-			if w == nil || cancelled[i] || (sc.stalled && i == sc.cancel) || i >= len(owed) {
+			if w == nil || cancelled[i] || ((sc.stalled || sc.broken) && i == sc.cancel) || i >= len(owed) {
 				continue
 			}
 			if got := w.reloads(); got < owed[i] {
@@ -526,6 +536,7 @@ func main() {
 		{name: "2 clients, 2 broadcasts back to back, client0 disconnects", clients: 2, sends: 2, cancel: 1},
 		{name: "2 clients, 1 broadcast, nobody leaves, a ping is due", clients: 2, sends: 1, cancel: 0, extraPing: 1},
 		{name: "2 clients, 2 broadcasts, client0 is a stalled reader", clients: 2, sends: 2, cancel: 0, stalled: true},
+		{name: "2 clients, 2 broadcasts, client0's connection breaks when its reload event is written", clients: 2, sends: 2, cancel: 0, broken: true},
 		{name: "1 client + late joiner, 1 broadcast", clients: 1, sends: 1, cancel: 0, late: true},
 		{name: "churn: 2 clients, client0 leaves, a new client connects, then 1 broadcast", clients: 2, sends: 1, cancel: 0, churn: true},
 		{name: "through the proxy handler (info logging): 2 clients, 1 broadcast, client0 disconnects", clients: 2, sends: 1, cancel: 1, proxyLog: "info"},
